@@ -434,7 +434,17 @@ enum HClass {
 }
 
 fn header_sets() -> Vec<(Headers, HClass)> {
+    // header sections of many lines (the format sets no bound on their number)
+    let mut many_keys: Headers = BTreeMap::new();
+    for i in 0..65 {
+        many_keys.insert(format!("K{i:02}"), vec![format!("v{i}")]);
+    }
+    let mut many_values: Headers = BTreeMap::new();
+    many_values.insert("Comment".to_string(), (0..130).map(|i| format!("line {i}")).collect());
+    many_values.insert("Version".to_string(), vec!["1".to_string()]);
     vec![
+        (many_keys, HClass::Plain),
+        (many_values, HClass::Plain),
         (mk_headers(&[]), HClass::Plain),
         (mk_headers(&[("Version", vec!["rpgp 0.16"])]), HClass::Plain),
         (mk_headers(&[("Comment", vec!["first", "second", ""]), ("Version", vec!["1"])]), HClass::Plain),
